@@ -296,8 +296,10 @@ func (w *odtW) list(l *logical.List, n int) string {
 		}
 		for i < len(l.Items) && l.Items[i].Level >= lvl {
 			sb.WriteString(`<text:list-item>`)
-			sb.WriteString(w.para("text:p", "", &l.Items[i].Para))
-			i++
+			if l.Items[i].Level == lvl {
+				sb.WriteString(w.para("text:p", "", &l.Items[i].Para))
+				i++
+			} // else: a text-less wrapper item around the deeper list (a level jump, ODF 1.2 part 1 §5.3.4)
 			if i < len(l.Items) && l.Items[i].Level > lvl {
 				i = emit(i, lvl+1, false)
 			}
